@@ -759,7 +759,27 @@ theorem runAcq_potential (reqs : List (List Int × Int)) (b : Bucket) (t0 : Int)
       push_cast; rfl
     refine ⟨by rw [hcast]; grind, q2, by rw [q3, p3], by rw [q4, p4], fun h => q5 (p5 h), by omega⟩
 
-theorem tbRun_potential (steps : List TBStep) (s : TBSys) (hq : 0 ≤ s.b.qps) (hm : Mono s.b s.clock) :
+theorem bucketResize_same (b : Bucket) : bucketResize b b.qps b.burst = (b, false) := by
+  unfold bucketResize; simp
+
+theorem tbLoop_params (nows : List Int) (b : Bucket) (t : Int) :
+    (tbLoop b t nows).1.qps = b.qps ∧ (tbLoop b t nows).1.burst = b.burst := by
+  induction nows generalizing b t with
+  | nil => exact ⟨rfl, rfl⟩
+  | cons now rest ih =>
+    have hp : (allowN b now t).1.qps = b.qps ∧ (allowN b now t).1.burst = b.burst := by
+      unfold allowN; simp only []; split <;> exact ⟨rfl, rfl⟩
+    unfold tbLoop
+    simp only []
+    split
+    · exact hp
+    · split
+      · exact hp
+      · obtain ⟨a1, a2⟩ := ih (allowN b now t).1 (t / KG.Gen.C08.tbDivisor)
+        exact ⟨a1.trans hp.1, a2.trans hp.2⟩
+
+theorem tbRun_potential (steps : List TBStep) (s : TBSys) (hq : 0 ≤ s.b.qps) (hm : Mono s.b s.clock)
+    (hres : ∀ st ∈ steps, SameParams s.b.qps s.b.burst st) :
     ((tbRun s steps).granted : Rat) + avail (tbRun s steps).b (tbRun s steps).clock ≤
       (s.granted : Rat) + avail s.b s.clock + tokensFromNs s.b.qps ((tbRun s steps).clock - s.clock) ∧
     Mono (tbRun s steps).b (tbRun s steps).clock ∧ (tbRun s steps).b.qps = s.b.qps ∧
@@ -778,6 +798,7 @@ theorem tbRun_potential (steps : List TBStep) (s : TBSys) (hq : 0 ≤ s.b.qps) (
       have hle : s.clock ≤ s.clock + (d : Int) := by omega
       have hs := avail_step s.b s.clock (s.clock + d) hq hm hle
       obtain ⟨q1, q2, q3, q4, q5, q6⟩ := ih (tbStep s (.tick d)) hq (mono_later hm hle)
+        (fun st hst => hres st (List.mem_cons_of_mem _ hst))
       simp only [tbStep] at q1 q2 q3 q4 q5 q6
       have hsp := tfn_split s.b.qps s.clock (s.clock + d) (tbRun { s with clock := s.clock + d } rest).clock
       simp only [tbRun, List.foldl_cons, tbStep] at *
@@ -790,6 +811,7 @@ theorem tbRun_potential (steps : List TBStep) (s : TBSys) (hq : 0 ≤ s.b.qps) (
       rw [hz0] at p1
       obtain ⟨q1, q2, q3, q4, q5, q6⟩ := ih (tbStep s (.tryAcquire n)) (by simp only [tbStep]; rw [p3]; exact hq)
         (by simp only [tbStep]; exact p2)
+        (by simp only [tbStep]; rw [p3, p4]; exact fun st hst => hres st (List.mem_cons_of_mem _ hst))
       simp only [tbStep] at q1 q2 q3 q4 q5 q6
       simp only [tbRun, List.foldl_cons, tbStep] at *
       rw [p3] at q1
@@ -797,6 +819,14 @@ theorem tbRun_potential (steps : List TBStep) (s : TBSys) (hq : 0 ≤ s.b.qps) (
           (s.granted : Rat) + ((granted (allowN s.b s.clock n).2 n : Int) : Rat) := by push_cast; rfl
       rw [hcast] at q1
       refine ⟨by grind, q2, by rw [q3, p3], by rw [q4, p4], fun h => q5 (p5 h), q6⟩
+    | resize q bu =>
+      -- same parameters: the identity on the bucket
+      have hsame : q = s.b.qps ∧ bu = s.b.burst := hres (.resize q bu) (List.mem_cons_self ..)
+      have hid : tbStep s (.resize q bu) = s := by
+        simp only [tbStep, hsame.1, hsame.2, bucketResize_same]
+      have := ih s hq hm (fun st hst => hres st (List.mem_cons_of_mem _ hst))
+      simp only [tbRun, List.foldl_cons] at this ⊢
+      rw [hid]; exact this
 
 theorem tbLoop_accept_halving (nows : List Int) (b : Bucket) (t : Int)
     (h : (tbLoop b t nows).2.1 = true) : ∃ k, k < nows.length ∧ (tbLoop b t nows).2.2 = halve t k := by
